@@ -24,7 +24,35 @@ def _props_sources(t):
     t.repo(CORE + "acquire-core-logger/logger.c")
 
 
+PLATFORM_RENAMES = ["-D%s=%s" % kv for kv in [
+    ("pthread_mutex_init", "vp_mutex_init"), ("pthread_mutex_destroy", "vp_mutex_destroy"),
+    ("pthread_mutex_lock", "vp_mutex_lock"), ("pthread_mutex_trylock", "vp_mutex_trylock"),
+    ("pthread_mutex_timedlock", "vp_mutex_timedlock"), ("pthread_mutex_unlock", "vp_mutex_unlock"),
+    ("pthread_cond_init", "vp_cond_init"), ("pthread_cond_destroy", "vp_cond_destroy"),
+    ("pthread_cond_wait", "vp_cond_wait"), ("pthread_cond_timedwait", "vp_cond_timedwait"),
+    ("pthread_cond_signal", "vp_cond_signal"), ("pthread_cond_broadcast", "vp_cond_broadcast"),
+    ("pthread_create", "vp_create"), ("pthread_join", "vp_join"), ("pthread_detach", "vp_detach"),
+    ("pthread_self", "vp_self"), ("clock_gettime", "vp_clock_gettime"), ("nanosleep", "vp_nanosleep"),
+    ("usleep", "vp_usleep"), ("sched_yield", "vp_sched_yield")]]
+FILE_RENAMES = ["-Dopen=vp_open", "-Dclose=vp_close", "-Dpwrite=vp_pwrite", "-Dflock=vp_flock", "-Dunlink=vp_unlink"]
+
+
+def _chan_sources(t):
+    t.verif("harness/chan/chan.cpp")
+    t.verif("engine/vsim/vsim.cpp")
+    t.repo(RT + "runtime/channel.c", ["-Dmemory_alloc=vh_memory_alloc", "-Dmemory_free=vh_memory_free"])
+    t.repo(CORE + "acquire-core-platform/linux/platform.c", PLATFORM_RENAMES)
+    t.repo(CORE + "acquire-core-logger/logger.c")
+
+
 HARNESSES = {
+    "chan": {
+        "props": ["C01", "C02", "C03"],
+        "sources": _chan_sources,
+        "engines": ["rc", "rp"],
+        "quick": {"rc_cases": 30000, "rc_size": 60},
+        "thorough": {"rc_cases": 400000, "rc_size": 120},
+    },
     "props": {
         "props": ["C13"],
         "sources": _props_sources,
